@@ -28,7 +28,7 @@ def digest (b : Bytes) : String := s!"{b.length}:{hex64 (fnv64 b)}"
 def framesText (fs : List Bytes) : String :=
   if fs.isEmpty then "-" else ",".intercalate (fs.map digest)
 
-inductive Kind | fw | app | sock | sockS | none
+inductive Kind | fw | app | sock | sockS | appS | none
   deriving DecidableEq
 
 structure DSt where
@@ -89,28 +89,53 @@ def stepC11 (d : DSt) (op : String) (got : String) : StepResult DSt :=
     if isCrash got || (got.splitOn " ret=PANIC").length > 1 then [⟨"no-crash", "crash", s!"{op}: {got}"⟩] else []
   match op.splitOn " " with
   | ["new", k] =>
-    let kind := if k == "fw" then Kind.fw else if k == "app" then Kind.app else Kind.none
+    let kind := if k == "fw" then Kind.fw else if k == "app" then Kind.app
+                else if k == "appsend" then Kind.appS else Kind.none
     if kind == .none then { st := {}, expected := some "bad-op" }
     else { st := { kind := kind }, expected := some "ok", cov := [s!"new-{k}"] }
   | ["new", k, mtu] =>
-    -- the real TCP / Unix stream transport receive loop; the (send) MTU must not matter on receive
+    -- the real TCP / Unix / UDP transport receive loop; its own (send) MTU must not matter on receive
     if (k == "tcp" || k == "unix") && mtu.toNat?.isSome then
       { st := { kind := .sock }, expected := some "ok", cov := [s!"new-{k}"] }
-    else if (k == "tcps" || k == "unixs") && mtu.toNat?.isSome then
-      -- send-side leg: blocks go through the sendFrame of a real transport with this MTU
-      { st := { kind := .sockS, sendMtu := mtu.toNat?.getD 0 }, expected := some "ok", cov := [s!"new-{k}"] }
+    else if k == "udp" && mtu.toNat?.isSome then
+      -- datagrams from a plain socket (no sending MTU): one block per `sf`
+      { st := { kind := .sockS, sendMtu := 1073741824 }, expected := some "ok", cov := [s!"new-{k}"] }
+    else { st := {}, expected := some "bad-op" }
+  | ["new", k, smtu, rmtu] =>
+    -- send-side leg: blocks go through the sendFrame of a real transport with MTU <smtu>; the MTU
+    -- <rmtu> of the receiving transport (possibly lower) must not matter
+    if (k == "tcps" || k == "unixs" || k == "udps") && smtu.toNat?.isSome && rmtu.toNat?.isSome then
+      { st := { kind := .sockS, sendMtu := smtu.toNat?.getD 0 }, expected := some "ok",
+        cov := [s!"new-{k}"] ++ (if rmtu.toNat?.getD 0 < smtu.toNat?.getD 0 then ["recv-mtu-below-send-mtu"] else []) }
     else { st := {}, expected := some "bad-op" }
   | ["blk", t, n, sd] =>
     if d.kind == .none then { st := d, expected := some "skip" } else
     match t.toNat?, n.toNat?, sd.toNat? with
     | some t, some n, some sd =>
       let b := mkBlock t n sd
-      let d' := if d.kind == .sockS then { d with blkQ := d.blkQ ++ [b] } else
+      let d' := if d.kind == .sockS || d.kind == .appS then { d with blkQ := d.blkQ ++ [b] } else
                 { d with stream := d.stream ++ b, expect := d.expect ++ [(b.length, digest b)],
                          undelivered := d.undelivered + b.length }
       { st := d', expected := some "ok", spec := crash,
         cov := [s!"blk-T{tlLen t}-L{tlLen n}"] ++ (if b.length = maxPkt then ["blk-maxsize"] else []) }
     | _, _, _ => { st := d, expected := some "bad-op" }
+  | ["cs", na, nb] =>
+    -- application side, SEND: two goroutines call StreamFace.Send concurrently (Wires of <na> and <nb>
+    -- buffers); the face serialises whole Wires, so the byte stream is the two blocks, unsplit
+    if d.kind != .appS || na.toNat?.isNone || nb.toNat?.isNone then { st := d, expected := some "skip" } else
+    match d.blkQ with
+    | a :: b :: rest =>
+      let frames := match field (got.splitOn " ") "f" with | some fs => parseFrames fs | none => []
+      let ok := frames = [digest a, digest b] || frames = [digest b, digest a]
+      let fails : List SpecFail :=
+        if got.startsWith "hang" then [⟨"no-spin", "hang", s!"{op}: {got}"⟩]
+        else if got.startsWith "k=" && !ok then
+          [⟨"exactly-the-blocks", "send-interleaved",
+            s!"{op}: two concurrent Sends of blocks {digest a} and {digest b} produced the stream {frames}: a block was split / merged on the wire"⟩]
+        else []
+      { st := { d with blkQ := rest }, expected := some s!"k={a.length + b.length} f={digest a},{digest b}",
+        spec := crash ++ fails, cov := ["cs"], nontrivial := true }
+    | _ => { st := d, expected := some "skip" }
   | ["sf"] =>
     -- the next block is handed to the sending transport's sendFrame: it is written to the stream iff
     -- it is not larger than that transport's MTU (`len(frame) > t.MTU()` → DROP), and must then come
@@ -221,6 +246,7 @@ def stepC11 (d : DSt) (op : String) (got : String) : StepResult DSt :=
                             allModel := d.allModel ++ r.1, allImpl := d.allImpl ++ implNow }, expected := exp,
             spec := crash ++ fails, cov := cov, nontrivial := nt }
         | .sockS => { st := dS, expected := some "skip", spec := crash }
+        | .appS => { st := dS, expected := some "skip", spec := crash }
         | .none => { st := dS, expected := some "skip" }
   | ["eof"] =>
     if d.kind == .none then { st := d, expected := some "skip" } else
